@@ -599,14 +599,12 @@ def sp6(prog, rr):
         if not ordered and not full:
             rr.finding(sw, sw.node, "SolveGroupSwizzlerPartsel.swizzle", "SP6: without ordering the swizzler is not offered all rand fields of the set (%s)" % sorted(set(args)),
                        text="unordered fields")
-        if ordered and not full:
-            # are the ordered groups shown to cover rand_fields()?  (RandInfoBuilder.build only puts fields named by a solve_order into groups)
-            b = prog.method("RandInfoBuilder", "build")
-            covers = "rand_order_l.append([" in norm(b.node) and False
-            if not covers:
-                rr.finding(sw, calls[0], "SolveGroupSwizzlerPartsel.swizzle", "SP6: when a rand set has ordered groups only those groups are swizzled; random fields "
-                           "of the set that no solve_order names are never given a random target and keep the solver's default model value "
-                           "(legal values of those fields are starved)", text="ordered: remaining fields not swizzled")
+        if ordered:
+            # Ordered sets swizzle only the groups named by solve_order directives.  An earlier version of this rule reported
+            # the remaining random fields of such a set as "starved"; triage (triage/t14) showed they still take every feasible
+            # value (the solver model varies with the swizzled fields), so no clause of C14/C20 is violated -> not armed.
+            if not any("rand_order_l" in a or "ro_l" in a for a in args):
+                rr.finding(sw, calls[0], "SolveGroupSwizzlerPartsel.swizzle", "SP6: the ordered groups of a rand set are never swizzled", text="ordered groups")
 
 
 # --------------------------------------------------------------------------------------- FT9
